@@ -21,7 +21,7 @@ THEOREMS = [
     'C09.execute_sim', 'C09.limit_monotone', 'C09.limit_small_aborts', 'C09.exceeded_iff', 'C09.abort_exact',
     'C09.limit_prefix', 'C09.hostExt_log', 'C09.limit_prefix_log',
     'C09.fuel_mono', 'C09.fuel_mono_execM', 'C09.limited_needs_no_more_fuel', 'C09.no_infinite_run_partial',
-    'C09.unknown_label_exact',
+    'C09.unknown_label_exact', 'C09.own_budget', 'C09.own_budget_states', 'C09.own_budget_session',
     'C09.goodM', 'C09.fuelMono', 'C09.simM',
 ]
 ASSUMPTIONS = [
@@ -36,13 +36,20 @@ ASSUMPTIONS = [
     'the data functions (dataFilter, dataCalculatedField, dataJoin) are not in the Lean host: programs that call back script '
     'functions through them are checked with the implementation-side oracles only',
     'numbers in generated programs are exactly representable (additions of small integers only in fully-logged programs, so that an '
-    'endless loop cannot leave the exactly representable range); "-0" in log lines is compared as "0" (the rational host has no negative zero)',
+    'endless loop cannot leave the exactly representable range); "-0" in log lines and in strings of the result / the globals is compared as "0" '
+    '(the rational host has no negative zero)',
     'included files live in one flat virtual directory, so the URL an include resolves to is the URL it names (resolution is C17)',
-    'DEFAULT_MAX_STATEMENTS (1e9, used when the option is absent) is only checked to be positive; runs of that length are not executed',
+    'DEFAULT_MAX_STATEMENTS (1e9, used when the option is absent) is only checked to be positive; runs of that length are not executed '
+    '(options without a maxStatements key are run for programs known to stop and must behave like maxStatements = 0)',
+    'runs on an options object with a history are compared with the Lean answer for count = 0 (the shared driver builds the start state '
+    'with count := 0; that execute gives the same answer for every other start counter is C09.own_budget, proved by rfl); runs that start '
+    'from globals an earlier run left behind (script function values) are checked with the implementation-side oracles only',
 ]
 TRUSTED = ['reference statement interpreter with its own statement counter (props/C08.py RefStatements + includes), the fully-logged '
-           'program generator and the logFn snapshot probe in harness/props/C09.py (the property oracles)']
+           'program generator, the logFn snapshot probe and the options-history driver (run_impl with a prep: earlier runs, copied options, stale '
+           'counter; the reference run on a brand-new options dict) in harness/props/C09.py (the property oracles)']
 
+FULLY = ('fl', 'data', 'session')     # families of fully-logged programs
 CAP = 3000                      # "unlimited-ish": a program that starts more than CAP statements counts as non-terminating
 CORPUS = os.path.join(os.path.dirname(os.path.dirname(os.path.abspath(__file__))), 'corpus', 'C09.jsonl')
 EXCEEDED = re.compile(r'^Exceeded maximum script statements \((\d+)\)$')
@@ -318,6 +325,48 @@ def data_case(rng):
     return {'family': 'data', 'text': '\n'.join(out), 'files': None, 'globals': {}, 'nfun': 1, 'tags': ['data']}
 
 
+def session_case(rng):
+    """Two scripts of one host session that share the globals: the first (case['warm']) defines fully-logged script functions,
+    function values and partials and leaves them in the globals; the second (case['text']) has no function statement and only
+    calls them - directly, recursively, as call-backs of library functions, through partials.  Every statement of the second run
+    logs first, so its started statements = its log lines, whatever options object (the first run's, a copy, a new one) it uses."""
+    g1 = FL(rng, prefix='u')
+    first = []
+    g1.function(first, 'pd', ['v'], lambda o, pad, names: o.extend([pad + g1.mark(), f'{pad}return {g1.wrap("v == " + str(rng.randint(0, 4)))}']))
+    g1.function(first, 'pq', ['t', 'v'], lambda o, pad, names: o.append(f'{pad}return {g1.wrap("v == t")}'))
+
+    def rc_body(o, pad, names):
+        o.append(pad + g1.mark())
+        o.append(f'{pad}jumpif ({g1.wrap("!(n > 0)")}) LXu')
+        o.append(f'{pad}    m = {g1.wrap("rc(n - 1)")}')
+        o.append(f'{pad}jumpif ({g1.wrap("true")}) LXu')
+        o.append(f'{pad}LXu:')
+        o.append(f'{pad}return {g1.wrap("n")}')
+    g1.function(first, 'rc', ['n'], rc_body)
+    g1.function(first, 'fa', ['p', 'q'], lambda o, pad, names: g1.block(o, pad, 1, names, True))
+    first.append(f'pp = {g1.wrap("systemPartial(pq, " + str(rng.randint(0, 3)) + ")")}')
+    first.append(f'gg = {g1.wrap("fa")}')
+    if rng.random() < 0.5:
+        g1.block(first, '', 1, ['a', 'b'], False, rng.randint(1, 2))
+    g2 = FL(rng, prefix='t', allow_nonterm=True)
+    g2.funcs = [('pd', 1), ('pq', 2), ('rc', 1), ('fa', 2)]
+    out = []
+    calls = ['pp({n})', 'gg({n}, {m})', 'rc({n})', 'arrayIndexOf(arrayNew({n}, {m}, 1), pp)', 'arrayIndexOf(arrayNew({n}, {m}), pd)',
+             'arrayIndexOf(arrayNew({n}, {m}), systemPartial(gg, {n}))']
+    for _ in range(rng.randint(1, 4)):
+        text = rng.choice(calls).format(n=rng.randint(0, 3), m=rng.randint(0, 3))
+        out.append(f'r = {g2.wrap(text)}')
+        if rng.random() < 0.5:
+            g2.block(out, '', 1, ['a', 'b', 'r'], False, rng.randint(1, 2))
+    warm = [['case', CAP]]
+    if rng.random() < 0.3:
+        warm.append(['self', rng.choice([2, 6, CAP])])
+    prep = {'warm': warm, 'globals': 'keep', 'debug': rng.random() < 0.1, 'stale': rng.choice(STALE) if rng.random() < 0.2 else None,
+            'copy': rng.random() < 0.2}
+    return {'family': 'session', 'text': '\n'.join(out), 'warm': '\n'.join(first), 'files': None, 'globals': {'a': 0, 'b': 2}, 'nfun': 0,
+            'preps': [prep], 'tags': ['session'] + sorted(g2.kinds) + (['nonterm'] if g2.nonterm else [])}
+
+
 # ---------------------------------------------------------------------------------------------------------------------
 # running: implementation (with the logFn snapshot probe), reference interpreter with its own counter
 # ---------------------------------------------------------------------------------------------------------------------
@@ -328,24 +377,112 @@ def fetch_fn(files):
     return fetch
 
 
-def run_impl(model, case, limit):
-    """-> outcome dict (shape of progen.run_impl) + 'snaps': the user-visible globals at each log line"""
+# ---------------------------------------------------------------------------------------------------------------------
+# host options configurations and histories.  A run is execute_script(model, options); the property speaks about ONE run,
+# so what the options object held before the run starts (the counter of an earlier run, a value the host put there, a
+# different limit) must not matter, and the script functions / values an earlier run left in shared globals are counted on
+# the budget of the run that calls them.
+#   prep = {'warm':    [[which, limit], ...]  earlier runs on the options object: which = 'self' (the same program),
+#                                             'case' (case['warm'], the first script of a session) or a key of WARM;
+#           'globals': 'reset' | 'keep'       reset: the (same) globals dict is emptied and refilled with the case globals
+#                                             before the run; keep: the run starts from what the earlier runs left there;
+#           'debug':   bool                   options['debug'] (library failures / include lint warnings go to logFn);
+#           'stale':   None | int             options['statementCount'] put there by the host before the run;
+#           'copy':    bool                   the run uses dict(options of the earlier runs) (options derived from a template)}
+# 'warm', 'globals' and 'debug' make the CONFIGURATION of the run (start globals, host functions); run_impl(..., reuse=False)
+# runs exactly that configuration on a brand-new options dict (sharing the globals dict): the reference.  reuse=True runs
+# it on the options object with its history ('warm' runs, 'stale', 'copy').  limit None = no 'maxStatements' key at all.
+# ---------------------------------------------------------------------------------------------------------------------
+
+WARM = {
+    'small': "function wf(n):\n    systemLog('w' + n)\n    return n + 1\nendfunction\nwi = 0\nwl:\nwi = wf(wi)\njumpif (wi < 4) wl\nwr = arrayIndexOf(arrayNew(1, 2), wf)",
+    'endless': "we = 0\nwl:\nwe = we + 1\njump wl",
+    'error': "wx = 1\nwy = wx + 1\njump nowhere\nwz = 3",
+    'one': "wo = 1",
+}
+SNAP_MAX, SNAP_PREP = 1600, 450
+STALE = [0, 1, 2, 3, 7, 40, 3000, 10 ** 9, 10 ** 9 + 1]
+
+
+def random_prep(rng, case):
+    warm = []
+    for _ in range(rng.choice([0, 1, 1, 1, 2, 3])):
+        which = rng.choice(['self', 'self', 'small', 'endless', 'error', 'one'])
+        warm.append([which, rng.choice([1, 2, 5, 9, 30, CAP]) if which != 'endless' else rng.choice([1, 4, 25])])
+    prep = {'warm': warm, 'globals': 'keep' if rng.random() < 0.3 else 'reset', 'debug': rng.random() < 0.15,
+            'stale': rng.choice(STALE) if (not warm or rng.random() < 0.25) else None, 'copy': bool(warm) and rng.random() < 0.2}
+    return prep
+
+
+def plain(prep):
+    """the configuration part of prep is the one of the ordinary runs (fresh case globals, no debug)"""
+    return prep['globals'] == 'reset' and not prep['debug']
+
+
+def prep_tags(prep):
+    tags = [f'opt:earlier-runs={len(prep["warm"])}'] + sorted({'opt:earlier-run-' + w[0] for w in prep['warm']})
+    tags.append('opt:globals-' + prep['globals'])
+    if prep['debug']:
+        tags.append('opt:debug')
+    if prep['stale'] is not None:
+        tags.append('opt:stale-count')
+    if prep['copy']:
+        tags.append('opt:copied-options')
+    return tags
+
+
+def run_impl(model, case, limit, prep=None, reuse=True):
+    """-> outcome dict (shape of progen.run_impl) + 'snaps': the user-visible globals at each log line (the first SNAP_MAX; runs
+    with a prep: the first SNAP_PREP - the same bound for the runs that are compared, so prefix and equality keep their meaning)"""
+    snap_max = SNAP_MAX if prep is None else SNAP_PREP
     mods = fw.impl()
     runtime, library, parser = mods['runtime'], mods['library'], mods['parser']
     lib = library.SCRIPT_FUNCTIONS
     log, snaps = [], []
     g = copy.deepcopy(case['globals'])
-    probe = case['family'] in ('fl', 'data')
+    probe = [False]
 
     def log_fn(text):
+        if probe[0] is None:
+            return
         log.append(text)
-        if probe:
+        if probe[0] and len(snaps) < snap_max:
             snaps.append(json.dumps(c08.user_globals(g)))
-    options = {'globals': g, 'maxStatements': limit, 'logFn': log_fn}
+    options = {'globals': g, 'logFn': log_fn}
     if case['files'] is not None:
         options['fetchFn'] = fetch_fn(case['files'])
     out = {}
     try:
+        if prep is not None:
+            if prep['debug']:
+                options['debug'] = True
+            probe[0] = None                       # the earlier runs of the session are not observed
+            for which, warm_limit in prep['warm']:
+                if which == 'self':
+                    warm_model = model
+                elif which == 'case':
+                    warm_model = parser.parse_script(case['warm'])
+                else:
+                    warm_model = parser.parse_script(WARM[which])
+                options['maxStatements'] = warm_limit
+                try:
+                    c08.guarded(lambda: runtime.execute_script(warm_model, options))      # pylint: disable=cell-var-from-loop
+                except (runtime.BareScriptRuntimeError, parser.BareScriptParserError):
+                    pass
+            if prep['globals'] == 'reset':
+                g.clear()
+                g.update(copy.deepcopy(case['globals']))
+            if not reuse:
+                options = {k: v for k, v in options.items() if k in ('globals', 'logFn', 'fetchFn', 'debug')}
+            else:
+                if prep['copy']:
+                    options = dict(options)
+                if prep['stale'] is not None:
+                    options['statementCount'] = prep['stale']
+        options.pop('maxStatements', None)
+        if limit is not None:
+            options['maxStatements'] = limit
+        probe[0] = case['family'] in ('fl', 'data', 'session')
         out['result'] = progen.value_to_wire(c08.guarded(lambda: runtime.execute_script(model, options)), lib)
     except runtime.BareScriptRuntimeError as exc:
         out['error'] = str(exc)
@@ -502,8 +639,9 @@ def budget_oracles(case, model, unl, unl_snaps, limit, out, snaps):
         if out['count'] > limit:
             bad.append(('count-within-limit', limit, out['count']))
     # (1) started statements, counted through the log (fully-logged programs): marks + function names bound
-    if case['family'] in ('fl', 'data') and case['nfun'] is not None:
-        bound = sum(1 for kv in out['globals'] if kv[1] == {'f': 'script'})
+    if case['family'] in FULLY and case['nfun'] is not None:
+        # the second script of a session has no function statement (the script functions in its globals come from the first)
+        bound = 0 if case['family'] == 'session' else sum(1 for kv in out['globals'] if kv[1] == {'f': 'script'})
         started = len(out['log']) + bound
         want = limit if aborted else out['count']
         if started != want or started > limit:
@@ -515,24 +653,39 @@ def budget_oracles(case, model, unl, unl_snaps, limit, out, snaps):
     return bad
 
 
+def started_at_cap(case, unl):
+    """fully-logged program that completes under the cap: started statements = log lines + function names bound"""
+    if case['family'] in FULLY and case['nfun'] is not None and 'error' not in unl and 'hostexc' not in unl:
+        bound = 0 if case['family'] == 'session' else sum(1 for kv in unl['globals'] if kv[1] == {'f': 'script'})
+        if len(unl['log']) + bound != unl['count']:
+            return {'started': len(unl['log']) + bound, 'log': len(unl['log']), 'bound': bound}
+    return None
+
+
 def check_program(ctx, st, case, rng, driver):
-    """All limits of one program: oracles on the implementation + correspondence with the Lean machine."""
+    """All limits of one program: oracles on the implementation + correspondence with the Lean machine.
+    -> (model requests, outcomes, limits, [(index into limits, prep, outcome on the options object with a history)])"""
     parser = fw.impl()['parser']
     model = parser.parse_script(case['text'])
-    unl, unl_snaps = run_impl(model, case, CAP)
-    nonterm = EXCEEDED.match(unl.get('error', '')) is not None
-    total = None if nonterm else unl['count']
-    # L = 0 (really unlimited) is only run for programs known to stop: the implementation must never be able to hang the check
-    limits = ([] if nonterm else [0]) + limits_for(rng, total, ctx.quick)
-    fully = case['family'] in ('fl', 'data')
-    reqs, outs = [], []
-    if fully and not nonterm and 'error' not in unl and 'hostexc' not in unl:
-        bound = sum(1 for kv in unl['globals'] if kv[1] == {'f': 'script'})
-        if len(unl['log']) + bound != unl['count']:
-            ctx.witness('started-statements', {'case': case, 'limit': CAP}, {'started': unl['count']},
-                        {'started': len(unl['log']) + bound, 'log': len(unl['log']), 'bound': bound})
+    fully = case['family'] in FULLY
+    session = case['family'] == 'session'            # the second script of a session is only run after the first (its preps)
+    reqs, outs, out_snaps, refs, extra = [], [], [], [], []
+    unl, unl_snaps, limits = None, None, []
+    if not session:
+        unl, unl_snaps = run_impl(model, case, CAP)
+        nonterm = EXCEEDED.match(unl.get('error', '')) is not None
+        total = None if nonterm else unl['count']
+        # L = 0 (really unlimited) is only run for programs known to stop: the implementation must never be able to hang the check
+        limits = ([] if nonterm else [0]) + limits_for(rng, total, ctx.quick)
+        if not nonterm:
+            bad = started_at_cap(case, unl)
+            if bad is not None:
+                ctx.witness('started-statements', {'case': case, 'limit': CAP}, {'started': unl['count']}, bad)
+        if unl.get('hostexc', '').startswith('Hang'):
+            ctx.witness('run-stops-within-budget', {'case': case, 'limit': CAP}, f'at most {CAP} statements start', unl['hostexc'])
+            return [], [], [], []
     wire_files = None
-    if driver and case['family'] != 'data':
+    if driver and case['family'] not in ('data', 'session'):
         counter = [0]
         script = progen.canon_script(model, counter)
         wire_files = []
@@ -541,29 +694,104 @@ def check_program(ctx, st, case, rng, driver):
                 wire_files.append([url, progen.canon_script(parser.parse_script(text), counter)])
             except parser.BareScriptParserError:
                 wire_files.append([url, 'broken'])
-    if unl.get('hostexc', '').startswith('Hang'):
-        ctx.witness('run-stops-within-budget', {'case': case, 'limit': CAP}, f'at most {CAP} statements start', unl['hostexc'])
-        return [], [], []
     for limit in limits:
         if c08.HANGS[0] >= 3:
             break
         out, snaps = run_impl(model, case, limit)
         outs.append(out)
+        out_snaps.append(snaps)
         tags = ['L=0' if limit == 0 else 'aborted' if EXCEEDED.match(out.get('error', '')) else 'error' if 'error' in out else 'completed']
         st.case([case['family'], case['text'], case['files'], limit],
                 nontrivial=(limit > 0 and (nonterm or abs(limit - total) <= 2 or bool(EXCEEDED.match(out.get('error', ''))))),
                 tags=tags + ['family:' + case['family']] + (case['tags'] if limit == limits[-1] else []))
         bad = budget_oracles(case, model, unl, unl_snaps, limit, out, snaps if fully else None)
+        ref = None
         if case['family'] != 'data' and 'hostexc' not in out:
             ref = run_reference(model, case, limit)
             if ref is not None and c08.no_neg_zero(ref) != c08.no_neg_zero(out):
                 bad.append(('independent-statement-count', ref, out))
+        refs.append(ref)
         for name, expected, actual in bad:
             ctx.witness(name, {'case': case, 'limit': limit}, expected, actual)
         if wire_files is not None:
             reqs.append({'op': 'exec', 'script': script, 'globals': progen.wire_globals(case['globals']), 'files': wire_files,
                          'max': limit, 'fuel': 2 * CAP + 500})
-    return reqs, outs, limits
+    # the same program on options objects with a history / in other host configurations
+    preps = list(case.get('preps') or [])
+    if not session and len(outs) == len(limits):
+        preps += [random_prep(rng, case) for _ in range(2)]
+    for prep in preps:
+        if c08.HANGS[0] >= 3:
+            break
+        extra += check_prep(ctx, st, case, model, rng, prep, (unl, unl_snaps, limits, outs, out_snaps, refs))
+    return reqs, outs, limits, (extra if wire_files is not None else [])
+
+
+def prep_limits(rng, total, terminating):
+    if total is None:
+        return sorted({1, 2, 5, rng.randint(3, 60), rng.randint(60, 400)})
+    ls = {1, total - 1, total, total + 1, 2 * total - 1, 2 * total, rng.randint(1, max(1, total)), rng.randint(1, max(1, total))}
+    return ([0, None] if terminating else []) + sorted(l for l in ls if l > 0)
+
+
+def check_prep(ctx, st, case, model, rng, prep, main):
+    """One options configuration/history (see run_impl) of one program under several limits.
+    The reference is the same configuration on a brand-new options dict; the run on the options object with the history must
+    (a) satisfy every budget oracle against that reference and (b) be the reference's outcome, counter included."""
+    unl, unl_snaps, limits, outs, out_snaps, refs = main
+    fully = case['family'] in FULLY
+    is_plain = plain(prep) and case['family'] != 'session'
+    pcase = case
+    if not is_plain:
+        if case['family'] in ('fl', 'data') or prep['debug']:
+            pcase = dict(case, nfun=None)      # script functions of earlier runs stay bound / debug lines in the log: no counting through the log
+        unl, unl_snaps = run_impl(model, case, CAP, prep, reuse=False)
+        if unl.get('hostexc', '').startswith('Hang'):
+            ctx.witness('run-stops-within-budget', {'case': case, 'limit': CAP, 'prep': prep, 'reuse': False},
+                        f'at most {CAP} statements start', unl['hostexc'])
+            return []
+        bad = started_at_cap(pcase, unl)
+        if bad is not None:
+            ctx.witness('started-statements', {'case': case, 'limit': CAP, 'prep': prep, 'reuse': False}, {'started': unl['count']}, bad)
+    nonterm = EXCEEDED.match(unl.get('error', '')) is not None
+    total = None if nonterm else unl['count']
+    if is_plain:
+        want = prep_limits(rng, total, not nonterm)
+        chosen = [l for l in want if l in limits or (l is None and 0 in limits)]
+        spare = [l for l in limits if l not in chosen]
+        chosen += rng.sample(spare, min(len(spare), max(0, 7 - len(chosen))))
+    else:
+        chosen = prep_limits(rng, total, not nonterm)
+    extra = []
+    tags = prep_tags(prep)
+    for limit in chosen:
+        if c08.HANGS[0] >= 3:
+            break
+        eff = 0 if limit is None else limit
+        found = []
+        if is_plain:
+            ix = limits.index(eff)
+            fresh, fresh_snaps = outs[ix], out_snaps[ix][:SNAP_PREP]
+        else:
+            fresh, fresh_snaps = run_impl(model, case, limit, prep, reuse=False)
+            found += [(n, e, a, False) for n, e, a in budget_oracles(pcase, model, unl, unl_snaps, eff, fresh, fresh_snaps if fully else None)]
+        out, snaps = run_impl(model, case, limit, prep, reuse=True)
+        aborted = bool(EXCEEDED.match(out.get('error', '')))
+        st.case([case['family'], case['text'], case['files'], limit, prep],
+                nontrivial=nonterm or aborted or limit is None or abs(eff - total) <= 2 or eff >= total,
+                tags=tags + ['opt:' + ('no-maxStatements-key' if limit is None else 'L=0' if limit == 0 else 'aborted' if aborted else 'not-aborted'),
+                             'family:' + case['family']] + (case['tags'] if case['family'] == 'session' and limit == chosen[-1] else []))
+        found += [(n, e, a, True) for n, e, a in budget_oracles(pcase, model, unl, unl_snaps, eff, out, snaps if fully else None)]
+        if 'hostexc' not in out and 'hostexc' not in fresh:
+            if out != fresh or (fully and snaps != fresh_snaps):
+                found.append(('own-budget-whatever-the-options-held', fresh, out, True))
+            if is_plain and refs[ix] is not None and c08.no_neg_zero(refs[ix]) != c08.no_neg_zero(out):
+                found.append(('independent-statement-count', refs[ix], out, True))
+        for name, expected, actual, reuse in found:
+            ctx.witness(name, {'case': case, 'limit': limit, 'prep': prep, 'reuse': reuse}, expected, actual)
+        if is_plain:
+            extra.append((ix, limit, prep, out))
+    return extra
 
 
 def load_corpus():
@@ -589,6 +817,8 @@ def make_cases(rng, n):
             cases.append(partial_case(rng))
         elif r < 9:
             cases.append(include_case(rng))
+        elif ix % 20 == 9:
+            cases.append(session_case(rng))
         else:
             cases.append(data_case(rng))
     return cases
@@ -605,7 +835,17 @@ def stream_budget(ctx, n, driver=True, name='budget'):
                     '1..N+2 for N<=40 (quick 24), else 1,2,3,N-1..N+2 + samples; execute_script vs Lean execute per limit; oracles: '
                     'aborted iff N>L with exact text and count L+1, identical for L>=N and L=0, log/global-snapshot prefix for L<N, '
                     'started statements counted through the log, independent reference interpreter with its own counter; '
-                    'non-trivial = L within 2 of N, or the run is aborted')
+                    'HOST OPTIONS: every program is also run (2 random preparations + the hand-picked ones of the corpus, '
+                    '<= 10 limits each incl. N-1, N, N+1, 2N-1, 2N, 0 and no maxStatements key) on an options object with a history - earlier '
+                    'runs on the SAME dict (the same program, a small script with functions, an endless loop that was aborted, a script that '
+                    'failed; under other limits), a shallow copy of such a dict, a statementCount the host put there (0..1e9+1) - with the '
+                    'globals dict emptied and refilled or KEPT (script functions / partials of earlier runs stay callable), with and without '
+                    'debug; 5%: two-script sessions (the first script defines fully-logged functions, function values and partials, the '
+                    'second only calls them - directly, recursively, as call-backs, through partials - on the same options object, a copy or a '
+                    'new one); reference = the same configuration on a brand-new options dict; oracles: all of the above against that '
+                    'reference + the outcome (result, error, log, globals, snapshots, statementCount) is the reference outcome; compared '
+                    'with the Lean answer for the same program and limit (C09.own_budget: execute ignores the counter it is given); '
+                    'non-trivial = L within 2 of N, or the run is aborted, or (runs with a history) L >= N / no limit')
     lib = fw.impl()['library']
     if not lib.DEFAULT_MAX_STATEMENTS > 0:
         ctx.witness('default-limit-positive', 'library.DEFAULT_MAX_STATEMENTS', '> 0', lib.DEFAULT_MAX_STATEMENTS)
@@ -616,19 +856,25 @@ def stream_budget(ctx, n, driver=True, name='budget'):
         if c08.HANGS[0] >= 3:
             ctx.notes.append('stream stopped: the implementation did not stop under maxStatements in 3 runs')
             break
-        r, outs, limits = check_program(ctx, st, case, rng, driver and ctx.driver is not None)
-        pending.append((case, limits, outs, len(r)))
+        r, outs, limits, extra = check_program(ctx, st, case, rng, driver and ctx.driver is not None)
+        pending.append((case, limits, outs, len(r), extra))
         reqs += r
     if reqs:
         resps = ctx.driver.batch(reqs)
         pos = 0
-        for case, limits, outs, nreq in pending:
+        for case, limits, outs, nreq, extra in pending:
             if not nreq:
                 continue
             for limit, out, resp in zip(limits, outs, resps[pos:pos + nreq]):
                 if 'hostexc' not in out and '<cycle>' not in json.dumps(out):
-                    ctx.compare(name, [case['family'], case['text'], case['files'], limit], c08.no_neg_zero(out),
-                                c08.no_neg_zero(progen.canon_model_out(resp)))
+                    ctx.compare(name, [case['family'], case['text'], case['files'], limit], progen.canon_neg_zero(out),
+                                progen.canon_neg_zero(progen.canon_model_out(resp)))
+            # Lean `execute` sets the counter of whatever state it is given to 0 (C09.own_budget): the run on an options object with
+            # a history is compared with the same model answer
+            for ix, limit, prep, out in extra:
+                if ix < nreq and 'hostexc' not in out and '<cycle>' not in json.dumps(out):
+                    ctx.compare(name, [case['family'], case['text'], case['files'], limit, prep], progen.canon_neg_zero(out),
+                                progen.canon_neg_zero(progen.canon_model_out(resps[pos + ix])))
             pos += nreq
 
 
@@ -650,22 +896,35 @@ def replay(witness):
     if not isinstance(case, dict):
         return False
     model = fw.impl()['parser'].parse_script(case['text'])
-    unl, unl_snaps = run_impl(model, case, CAP)
     limit = inp['limit']
-    out, snaps = run_impl(model, case, limit)
-    fully = case['family'] in ('fl', 'data')
+    prep = inp.get('prep')
+    fully = case['family'] in FULLY
+    bad = []
+    if prep is None:
+        unl, unl_snaps = run_impl(model, case, CAP)
+        out, snaps = run_impl(model, case, limit)
+        pcase, eff = case, limit
+    else:
+        is_plain = plain(prep) and case['family'] != 'session'
+        pcase = dict(case, nfun=None) if not is_plain and (case['family'] in ('fl', 'data') or prep['debug']) else case
+        eff = 0 if limit is None else limit
+        unl, unl_snaps = run_impl(model, case, CAP, prep, reuse=False)
+        fresh, fresh_snaps = run_impl(model, case, limit, prep, reuse=False)
+        out, snaps = (run_impl(model, case, limit, prep, reuse=True) if inp.get('reuse', True) else (fresh, fresh_snaps))
+        if 'hostexc' not in out and 'hostexc' not in fresh and (out != fresh or (fully and snaps != fresh_snaps)):
+            bad.append(('own-budget-whatever-the-options-held', fresh, out))
     if witness['oracle'] == 'run-stops-within-budget':
         return out.get('hostexc', '').startswith('Hang') or unl.get('hostexc', '').startswith('Hang')
-    bad = [] if limit == CAP else budget_oracles(case, model, unl, unl_snaps, limit, out, snaps if fully else None)
-    if limit == CAP and fully and 'error' not in unl:
-        bound = sum(1 for kv in unl['globals'] if kv[1] == {'f': 'script'})
-        if len(unl['log']) + bound != unl['count']:
+    if limit == CAP:
+        if started_at_cap(pcase, unl) is not None:
             bad.append(('started-statements', None, None))
-    if case['family'] != 'data' and 'hostexc' not in out:
-        ref = run_reference(model, case, limit)
+    else:
+        bad += budget_oracles(pcase, model, unl, unl_snaps, eff, out, snaps if fully else None)
+    if case['family'] not in ('data', 'session') and 'hostexc' not in out and (prep is None or plain(prep)):
+        ref = run_reference(model, case, eff)
         if ref is not None and c08.no_neg_zero(ref) != c08.no_neg_zero(out):
             bad.append(('independent-statement-count', ref, out))
-    return any(name == witness['oracle'] for name, _, _ in bad)
+    return any(b[0] == witness['oracle'] for b in bad)
 
 
 LEVEL_TEXT = ('Theorems about the Lean mirror of the runtime (one counter in the state, incremented and tested at the head of every '
@@ -680,7 +939,11 @@ LEVEL_TEXT = ('Theorems about the Lean mirror of the runtime (one counter in the
               'recursion, call-backs, nested includes) x every limit in 1..N+2 / sampled limits / 0, and by implementation oracles: '
               'exact abort text and count, identity above N, log and global-snapshot prefixes, started statements counted through the '
               'log of fully-logged programs (also through dataFilter/dataCalculatedField/dataJoin call-backs), independent '
-              'reference interpreter with its own counter.')
+              'reference interpreter with its own counter. A run does not depend on the counter the state holds when it starts '
+              '(own_budget, own_budget_session), tied to the code by running every program on options objects with a history (earlier '
+              'runs on the same dict - completed, aborted, failed, other limits -, copied dicts, host-provided statementCount, kept or '
+              'reset globals, debug, no maxStatements key, two-script sessions whose second script calls the functions of the first): '
+              'each run must satisfy all oracles against, and be identical to, the same run on a brand-new options dict.')
 LEVEL_NOTE = ('no_infinite_run is partial: statement starts are bounded by L+1 for all hosts, but "some fuel suffices" needs a '
               'well-foundedness hypothesis on host library trees that the abstract model does not have (documented in C09.lean). The '
               'prefix property for GLOBALS and the data-function call-backs are checked on the implementation only. Trusted: Lean '
